@@ -410,6 +410,13 @@ def r8(F, rep):
             rep.add("C11-R8", "%s|%s" % (f.q, X.re_strip(src)), f.loc(r), "%s renames `%s` onto `%s`; its stream is closed on every path from output_stream() to the rename: %s" % (
                 f.q, X.re_strip(src), X.re_strip(X.key(X.call_args(r)[1], f)), ok), ok,
                 detail="between the rename and the close the final name holds only what the stream has flushed so far", func=f.q)
+            dst = X.key(X.call_args(r)[1], f)
+            gone = [c for c in X.calls(f) if X.callee_name(c) in ("remove_file", "output_stream") and X.call_args(c) and
+                    X.key(X.call_args(c)[0], f) == dst and f.cfg.can_reach(c, r)]
+            rep.add("C11-R8", "%s|%s|kept" % (f.q, X.re_strip(dst)), f.loc(gone[0] if gone else r),
+                    "%s: the previous `%s` %s" % (f.q, X.re_strip(dst), "is removed or reopened for writing BEFORE the new one is renamed onto it" if gone else
+                                                  "is neither removed nor reopened before the rename replaces it"), not gone,
+                    detail="between that call and the rename no complete generation of the file exists: a crash there loses the state", func=f.q)
     if n < 1:
         raise AnalysisBroken("C11-R8: no write-then-rename sequence found (colvarbias_meta::write_replica_state_file expected)")
 
